@@ -281,6 +281,61 @@ Proof.
   - destruct (run_file_fails ts c0) as [_ B]. simpl in B. exact B.
 Qed.
 
+(* ---------------------------------------------------------------- tests that do not run influence nothing *)
+Lemma run_scopes_skipped t ss : t_skip t = true -> forall σ c,
+  forallb (fun x => tc_skip x) (fst (run_scopes t ss σ c)) = true /\
+  asserts (snd (run_scopes t ss σ c)) = asserts c /\ passes (snd (run_scopes t ss σ c)) = passes c /\
+  fails (snd (run_scopes t ss σ c)) = fails c.
+Proof.
+  intros Hs. induction ss as [|s r IH]; intros σ c; simpl; auto.
+  rewrite Hs. specialize (IH σ (c_skip c)). destruct (run_scopes t r σ (c_skip c)) as [cs c']. simpl in *.
+  destruct IH as (A & B & C & D). auto.
+Qed.
+
+Lemma run_scopes_executed t ss : t_skip t = false -> forall σ c,
+  forallb (fun x => negb (tc_skip x)) (fst (run_scopes t ss σ c)) = true.
+Proof.
+  intros Hs. induction ss as [|s r IH]; intros σ c; simpl; auto.
+  rewrite Hs. destruct (run_body s (t_body t) σ) as [[[k v] lg] σ'].
+  match goal with |- context [run_scopes t r σ' ?cc] => specialize (IH σ' cc); destruct (run_scopes t r σ' cc) end.
+  simpl in *. auto.
+Qed.
+
+Definition executed (t : test) : bool := negb (t_skip t).
+
+(* The cases that were executed, the assertion / pass / fail counters and the exit status are those
+   of the file with every skipped (@skip or filtered out by @tag) test REMOVED: a test that does not
+   run influences nothing but the number of skipped cases. *)
+Theorem skipped_influence_nothing ts :
+  let r := run_file ts c0 in
+  let r' := run_file (filter executed ts) c0 in
+  filter (fun x => negb (tc_skip x)) (fst r) = fst r' /\
+  asserts (snd r) = asserts (snd r') /\ passes (snd r) = passes (snd r') /\ fails (snd r) = fails (snd r') /\
+  exit_status (snd r) = exit_status (snd r').
+Proof.
+  simpl. rewrite !run_file_by_test. simpl.
+  assert (K : filter (fun x : tcase => negb (tc_skip x)) (flat_map cases_of ts) = flat_map cases_of (filter executed ts) /\
+              asserts (csum (map delta_of ts)) = asserts (csum (map delta_of (filter executed ts))) /\
+              passes (csum (map delta_of ts)) = passes (csum (map delta_of (filter executed ts))) /\
+              fails (csum (map delta_of ts)) = fails (csum (map delta_of (filter executed ts)))).
+  { unfold cases_of, delta_of, run_test, executed. induction ts as [|t r IH]; simpl; auto.
+    destruct IH as (A & B & C & D). rewrite filter_app.
+    destruct (t_skip t) eqn:Hs; simpl.
+    - destruct (run_scopes_skipped t (t_scopes t) Hs init c0) as (S1 & S2 & S3 & S4). simpl in S2, S3, S4.
+      assert (E : filter (fun x : tcase => negb (tc_skip x)) (fst (run_scopes t (t_scopes t) init c0)) = []).
+      { revert S1. generalize (fst (run_scopes t (t_scopes t) init c0)). induction l; simpl; auto.
+        intros H. apply andb_prop in H. destruct H as [H1 H2]. rewrite H1. simpl. auto. }
+      rewrite E, S2, S3, S4. simpl. auto.
+    - pose proof (run_scopes_executed t (t_scopes t) Hs init c0) as S1.
+      assert (E : filter (fun x : tcase => negb (tc_skip x)) (fst (run_scopes t (t_scopes t) init c0)) =
+                  fst (run_scopes t (t_scopes t) init c0)).
+      { revert S1. generalize (fst (run_scopes t (t_scopes t) init c0)). induction l; simpl; auto.
+        intros H. apply andb_prop in H. destruct H as [H1 H2]. rewrite H1. f_equal. auto. }
+      rewrite E, A, B, C, D. auto. }
+  destruct K as (A & B & C & D). simpl. repeat split; auto.
+  unfold exit_status. simpl. rewrite D. reflexivity.
+Qed.
+
 (* ---------------------------------------------------------------- describe groups and hooks *)
 Notation group := (group scope body).
 Notation item := (item scope body).
@@ -456,3 +511,13 @@ Proof.
 Qed.
 
 End Ext.
+
+(* ---------------------------------------------------------------- the documented @tag table (docs/testing.md) *)
+Theorem tag_table (p d : N) : p <> d ->
+  tag_runs [(p, false)] [] = false /\ tag_runs [(p, false)] [p] = true /\ tag_runs [(p, false)] [d] = false /\
+  tag_runs [(p, true)] [] = true /\ tag_runs [(p, true)] [p] = false /\ tag_runs [(p, true)] [d] = true /\
+  tag_runs [] [] = true /\ tag_runs [] [p] = true /\ tag_runs [] [d] = true.
+Proof.
+  intros H. unfold tag_runs, match_tags, tag_hit. simpl. rewrite N.eqb_refl.
+  destruct (N.eqb_spec p d); [contradiction|]. simpl. repeat split; reflexivity.
+Qed.
